@@ -622,7 +622,10 @@ impl Engine for C13 {
                 }
             }
             // remember successful downloads whose cache write was not disturbed
-            let write_fault_now = obs.proc.fs_faults_fired.keys().any(|k| !k.contains("read"));
+            // ANY injected file-system error of the run may have disturbed its cache write (a write
+            // procedure may read its temporary file back to verify it: a read error then aborts the
+            // write - seen with a property-preserving alternative implementation, DESIGN 6.4)
+            let write_fault_now = !obs.proc.fs_faults_fired.is_empty();
             if !write_fault_now && !fs_faults.enospc_after_bytes.is_some() && !killed {
                 for rq in &obs.requests {
                     if rq.ok {
